@@ -54,27 +54,27 @@ func (a lin) addScaled(b lin, s int64) lin {
 	}
 	return n
 }
-func (a lin) neg() lin          { return newLin(0).addScaled(a, -1) }
+func (a lin) neg() lin              { return newLin(0).addScaled(a, -1) }
 func (a lin) plusConst(k int64) lin { n := a.clone(); n.k.Add(n.k, big.NewInt(k)); return n }
-func (a lin) isConst() bool     { return len(a.t) == 0 }
+func (a lin) isConst() bool         { return len(a.t) == 0 }
 
 type bprover struct {
-	c        *Ctx
-	fn       *ssa.Function
-	max      *big.Int // largest int
-	big_     *big.Int // assumed bound for lengths and offsets
-	bits     int
-	domEdges map[*ssa.BasicBlock][]CondEdge // edges dominating the block (value of CondEdge.Val unused)
-	factMemo map[*ssa.BasicBlock][]lin
-	inFacts  map[*ssa.BasicBlock]bool
-	posts    map[*ssa.Function]bool // decoders whose post-condition 0<=newpos<=len(data) is proven
-	axioms   func(p *bprover, a atomKey) []lin
-	atoms    map[atomKey]bool
-	notes    []string
+	c         *Ctx
+	fn        *ssa.Function
+	max       *big.Int // largest int
+	big_      *big.Int // assumed bound for lengths and offsets
+	bits      int
+	domEdges  map[*ssa.BasicBlock][]CondEdge // edges dominating the block (value of CondEdge.Val unused)
+	factMemo  map[*ssa.BasicBlock][]lin
+	inFacts   map[*ssa.BasicBlock]bool
+	posts     map[*ssa.Function]bool // decoders whose post-condition 0<=newpos<=len(data) is proven
+	axioms    func(p *bprover, a atomKey) []lin
+	atoms     map[atomKey]bool
+	notes     []string
 	diseqMemo map[*ssa.BasicBlock][]lin
-	extra    map[*ssa.BasicBlock][]lin
+	extra     map[*ssa.BasicBlock][]lin
 	extraDone map[ssa.Value]bool
-	noWrap   bool // treat + - * as exact (used where values are bounded by a slice length by construction)
+	noWrap    bool // treat + - * as exact (used where values are bounded by a slice length by construction)
 }
 
 func (c *Ctx) newProver(fn *ssa.Function, posts map[*ssa.Function]bool) *bprover {
